@@ -2916,6 +2916,11 @@ new_connection_process_ (struct MHD_Daemon *daemon,
                   connection);
       if (! MHD_D_IS_USING_THREAD_PER_CONN_ (daemon))
       {
+        /* The connection may have waited in the 'new connections' queue.
+           It becomes the head of the list sorted by the last activity
+           time, so (re)start the timeout timer now. */
+        if (0 != connection->connection_timeout_ms)
+          connection->last_activity = MHD_monotonic_msec_counter ();
         XDLL_insert (daemon->normal_timeout_head,
                      daemon->normal_timeout_tail,
                      connection);
